@@ -18,10 +18,79 @@ SECTION_FNS = {
 PUSH = ("std::string::String::push_str",)
 
 
+def _unescape_bytes(disp):
+    """b".." as printed by rustc -> list of byte values"""
+    m = re.search(r'b"(.*)"', disp, re.S)
+    if not m:
+        return None
+    s_ = m.group(1)
+    out = []
+    i = 0
+    while i < len(s_):
+        c = s_[i]
+        if c == "\\":
+            n = s_[i + 1]
+            if n == "x":
+                out.append(int(s_[i + 2:i + 4], 16))
+                i += 4
+                continue
+            out.append({"n": 10, "r": 13, "t": 9, "0": 0, "\\": 92, '"': 34, "'": 39}.get(n, ord(n)))
+            i += 2
+            continue
+        out += list(c.encode("utf-8"))
+        i += 1
+    return out
+
+
+def decode_format(t):
+    """format!(..) as lowered by this toolchain: fmt::format(Arguments::new(template bytes, [args])) -> pieces, or None.
+    Template: a byte < 0x80 announces a literal run of that length, 0xC0 the next argument with default formatting, 0x00 the end."""
+    if not (t[0] == "call" and t[1] in ("std::fmt::format", "alloc::fmt::format") and t[2]):
+        return None
+    a = t[2][0]
+    if a[0] == "call" and "fmt::Arguments::<" in a[1] and a[1].endswith("::from_str") and a[2]:
+        return [a[2][0]]
+    if not (a[0] == "call" and "fmt::Arguments::<" in a[1] and a[1].endswith("::new") and len(a[2]) == 2):
+        return None
+    tmpl, args = a[2]
+    if not (tmpl[0] == "const" and tmpl[1] == "other"):
+        return None
+    bs = _unescape_bytes(tmpl[2])
+    arr = [x for x in [args] if x[0] == "agg" and x[1] == "array"]
+    if bs is None or not arr:
+        return None
+    argv = list(arr[0][3])
+    out = []
+    i = 0
+    k = 0
+    while i < len(bs):
+        b = bs[i]
+        if b == 0:
+            break
+        if b < 0x80:
+            out.append(("const", "str", bytes(bs[i + 1:i + 1 + b]).decode("utf-8", "replace")))
+            i += 1 + b
+        elif b == 0xC0:
+            if k >= len(argv):
+                return None
+            out.append(argv[k])
+            k += 1
+            i += 1
+        else:
+            return None
+    return out
+
+
 def flatten(t):
-    """pieces of a string expression built with `+`"""
+    """pieces of a string expression built with `+` or format!"""
     if t[0] == "call" and t[1] == "std::ops::Add::add" and len(t[2]) == 2:
         return flatten(t[2][0]) + flatten(t[2][1])
+    f = decode_format(t)
+    if f is not None:
+        out = []
+        for x in f:
+            out += flatten(x)
+        return out
     return [t]
 
 
